@@ -2122,6 +2122,10 @@ class ObjectDomain(LazyGenerators, EffectDomain):
         if d == "map" and len(call.args) >= 3 and not call.keywords and not any(isinstance(a, ast.Starred) for a in call.args) and not st.has(fr.local("map")) and self.lazy_generators:
             # map(f, a, b, ...): f applied to the elements of a, b, ... in step, as the result is consumed
             return [r if r.kind == "exc" else self._iterator_object(("zipmap", r.value[0], tuple(r.value[1:])), r.state) for r in interp.eval_list(list(call.args), st, fr, share=[True] * len(call.args))]
+        if d in ("itertools.starmap", "starmap") and len(call.args) == 2 and not call.keywords and not any(isinstance(a, ast.Starred) for a in call.args) and self.lazy_generators \
+                and not st.has(fr.local("starmap")):
+            # starmap(f, rows): f(*row) for each row, as the result is consumed
+            return [r if r.kind == "exc" else self._iterator_object(("starmap", r.value[0], r.value[1]), r.state) for r in interp.eval_list(list(call.args), st, fr, share=[True, True])]
         if d in ("itertools.accumulate", "accumulate") and len(call.args) in (1, 2) and all(k.arg == "initial" for k in call.keywords) and not any(isinstance(a, ast.Starred) for a in call.args) \
                 and self.lazy_generators and not st.has(fr.local("accumulate")):
             out = []
@@ -2454,7 +2458,7 @@ class ObjectDomain(LazyGenerators, EffectDomain):
         return [(interp._exact_elements(value), st)]
 
     def pullable(self, v):
-        return isinstance(v, tuple) and v[:1] in (("calliter",), ("repeat",), ("seqiter",), ("itercount",), ("genobj",), ("lazycomp",), ("iterobj",), ("chain",), ("ifilter",), ("zipmap",), ("accum",), ("islice",)) or (isinstance(v, tuple) and v[:1] == ("lazymap",) and len(v) == 3 and self.pullable(v[2]))
+        return isinstance(v, tuple) and v[:1] in (("calliter",), ("repeat",), ("seqiter",), ("itercount",), ("genobj",), ("lazycomp",), ("iterobj",), ("chain",), ("ifilter",), ("zipmap",), ("accum",), ("islice",), ("starmap",)) or (isinstance(v, tuple) and v[:1] == ("lazymap",) and len(v) == 3 and self.pullable(v[2]))
 
     def pull(self, interp, seq, st, fr):
         return self._pull(interp, seq, st, fr)
@@ -2557,6 +2561,19 @@ class ObjectDomain(LazyGenerators, EffectDomain):
             for els, rests, s0 in cur:
                 for r in self.apply(interp, seq[1], list(els), [], s0, fr):
                     out.append(("exc", r.value, None, r.state) if r.kind == "exc" else ("item", r.value, ("zipmap", seq[1], rests), r.state))
+            return out
+        if isinstance(seq, tuple) and seq[:1] == ("starmap",) and len(seq) == 3:
+            out = []
+            for kind, el, rest, s1 in self._pull(interp, seq[2], st, fr):
+                if kind != "item":
+                    out.append((kind, el, None, s1))
+                    continue
+                row = interp._exact_elements(unbox(el, s1))
+                if row is None:
+                    out.append(("unknown", None, None, s1))
+                    continue
+                for r in self.apply(interp, seq[1], list(row), [], s1, fr):
+                    out.append(("exc", r.value, None, r.state) if r.kind == "exc" else ("item", r.value, ("starmap", seq[1], rest), r.state))
             return out
         if isinstance(seq, tuple) and seq[:1] == ("accum",) and len(seq) == 4:
             _, fn, src, mode = seq
